@@ -156,7 +156,7 @@ func drawVocab(tier string) *vocab {
 		v.table = append(v.table, v.add(drawWord(3, nAlpha)))
 	}
 	// multi-byte characters split over 2-4 tokens
-	for _, ch := range []string{"é", "€", "😀"} {
+	for _, ch := range []string{"é", "€", "😀", "\uFFFD"} { // U+FFFD is a valid character (EF BF BD), not only the decoder's error value
 		if d("split-char", 3) == 0 {
 			continue
 		}
